@@ -10,6 +10,13 @@ def _f(mod, fn):
 
 
 PROPS = {
+    'C15': {
+        'lean': 'C15',
+        'corr': [_f('comp_args', 'corr')],
+        'oracles': [_f('comp_args', 'oracle')],
+        'modelled': ['which table filters the kwargs of which client call (upload/copies/download/delete/__init__/processpool)',
+                     'utils.get_filtered_dict', 'utils.set_default_checksum_algorithm', 'manager._validate_all_known_args'],
+    },
     'C17': {
         'lean': 'C17',
         'corr': [_f('comp_coord', 'corr')],
